@@ -651,6 +651,15 @@ def _structural(f, c):
                 # Some(rest) of strip_prefix/suffix with a non-empty pattern is strictly shorter
                 depth += 1
                 y = strip(y[2][0])
+            elif y[0] == "phi":
+                # result of an inlined `fn part(s) -> Option<&str> { s.strip_prefix(..)?.strip_suffix(..) }`: the arms that carry
+                # no text (None / Err / a `?`-propagated residual) never reach the recursive call
+                arms = [strip(a) for a in y[1]]
+                live = [a for a in arms if not ((a[0] == "agg" and str(a[1]).rsplit("::", 1)[-1] in ("None", "Err") and not a[2])
+                                                or (a[0] == "call" and (a[4].endswith("FromResidual::from_residual") or a[1].endswith("FromResidual::from_residual"))))]
+                if len(live) != 1:
+                    break
+                y = live[0]
             elif y[0] == "call" and y[1].endswith(("Option::and_then", "Option::map")) and len(y[2]) == 2:
                 # opt.and_then(|rest| rest.strip_suffix(')')): the closure's value for the payload of `opt`
                 payload = ("field", ("variant", y[2][0], "Some"), "0", "std::option::Option::Some")
